@@ -2735,9 +2735,14 @@ class Mesh:
                     # Found a region with a lower boundary - start stepping through
                     # y-connections from here
                     break
-                # note, if no region with connections['lower']=None is found, then some
-                # arbitrary region will be 'first_region' after this loop. This is OK,
-                # as this region must be part of a periodic group, which we will handle.
+            else:
+                # No region with connections['lower']=None was found, so all remaining
+                # regions are part of periodic groups. Start from the first one in
+                # y-index order, so that poloidal_distance, zShift, etc. on closed flux
+                # surfaces are measured from the start of the first core region (the
+                # poloidal location of the lower X-point in the standard ordering).
+                i = 0
+                first_region = region_list[0]
 
             # Find all the regions connected in the y-direction to 'first_region' and
             # add them to 'group'. Remove them from 'region_list' since each region can
